@@ -561,10 +561,18 @@ impl DrawState {
             term.write_str(line.as_ref())?;
 
             if idx + 1 == self.lines.len() {
-                // For the last line of the output, keep the cursor on the right terminal
-                // side so that next user writes/prints will happen on the next line
-                let last_line_filler = line_height.as_usize() * term_width - line.console_width();
-                term.write_str(&" ".repeat(last_line_filler))?;
+                if matches!(line, LineType::Bar(_)) {
+                    // For the last line of the output, keep the cursor on the right terminal
+                    // side so that next user writes/prints will happen on the next line
+                    let last_line_filler =
+                        line_height.as_usize() * term_width - line.console_width();
+                    term.write_str(&" ".repeat(last_line_filler))?;
+                } else {
+                    // A draw that ends with a text line leaves nothing to redraw, so finish the
+                    // line: the next draw then starts on a fresh row even if its first line is
+                    // empty (an empty line does not wrap a cursor parked at the right edge).
+                    term.write_line("")?;
+                }
             }
         }
 
